@@ -44,6 +44,7 @@ func allProps() []*PropSpec {
 		propC01(),
 		propC16(),
 		propC11(),
+		propC05(),
 	}
 }
 
@@ -413,6 +414,33 @@ func propC11() *PropSpec {
 			js = append(js, jobsN("html", "VerifHTMLEmbedDataURI", pick(rng(1, 3), rng(1, 4)), "data: URIs in img src / link href with and without parameters")...)
 			js = append(js, jobsN("svg", "VerifSVGEmbed", pick(rng(1, 3), rng(1, 4)), "svg style element and style attribute")...)
 			js = append(js, Job{Pkg: "html", Fn: "VerifHTMLTwin", N: 0, ExpectFail: true, Desc: "vacuity twin"})
+			return js
+		},
+	}
+}
+
+func propC05() *PropSpec {
+	return &PropSpec{
+		ID:   "C05",
+		Rule: "one case = one feasible path of (*PathData).ShortenPathData / svg.Minify on path data and document templates whose command letters, coordinates (from short lists), number notations, separators, arc flags, attribute choices and options are symbolic; reference SVG 1.1 path interpreter compares absolute segments; attribute rule table decides kept/dropped; non-trivial = completes with a distinct symbolic output",
+		Assumptions: []string{"coordinates come from the lists in harness/svg/path.go (floating point runs concretely; symbolic floating point is out of reach)", "closepath directly after closepath compares equal to one closepath", "Precision 0"},
+		Outside:     []string{"arbitrary coordinate values (fractions, large exponents) through the float path: only the listed lexemes", "paths of more than 2-3 commands", "CSS inside style (C04/C11), transforms, gradients", "Precision > 0"},
+		Stubs:       []string{"math.* natively on concrete floats", "fmt native"},
+		Jobs: func(tier string) []Job {
+			var js []Job
+			q := tier == "quick"
+			pick := func(a, b []int) []int {
+				if q {
+					return a
+				}
+				return b
+			}
+			js = append(js, jobsN("svg", "VerifSVGPath", pick([]int{1}, []int{1, 2}), "M0 0 + n commands over 18 letters, coordinates over {0,10}")...)
+			js = append(js, jobsN("svg", "VerifSVGPathCurves", pick([]int{1, 2}, []int{1, 2}), "M0 0 + n curve commands (C/S/Q/T), coordinates over {0,10}")...)
+			js = append(js, jobsN("svg", "VerifSVGPathNumbers", pick([]int{2}, []int{2, 4}), "M a b [L c d]: 14 number notations x 3 separators")...)
+			js = append(js, jobsN("svg", "VerifSVGPathArc", pick([]int{1}, []int{1}), "arc with compact flags")...)
+			js = append(js, jobsN("svg", "VerifSVGAttr", []int{0}, "26 root attributes x 26 x 9 child attributes x Inline x KeepComments")...)
+			js = append(js, Job{Pkg: "svg", Fn: "VerifSVGTwin", N: 0, ExpectFail: true, Desc: "vacuity twin"})
 			return js
 		},
 	}
